@@ -290,7 +290,7 @@ func c10Stalled(kind, end string, rep *Report) (viol, detail string) {
 func c10(env *Env, rep *Report) {
 	ins := c10Inputs()
 	rep.Rule = fmt.Sprintf("(a) %d hostile packet inputs (every type in {0..0x12,0xFF,0x100,0xFFFF} x header length fields {0..16,true-1,true,true+1,4096,0xFFFF,2^31-1,2^31,2^32-1}; headers truncated at 0..7 bytes; every body truncation of each request; inner length fields {0,1,true-1,true,true+1,0x7FFF,0xFFFF}; field masks; invalid UTF-16) x 6 protocol phases (after 0..5 packets of the canonical session) x transports {processor, websocket, legacy}; "+
-		"(c) NTLM messages against the real verifier; (d) KDC-proxy bodies against the real handler; (e) every sequence of up to 3 requests from {RDG_IN_DATA, RDG_OUT_DATA, websocket upgrade, GET, unknown method} x connection ids {X, Y, none} against the real handler; (b) HTTP-level inputs against the real rdpgw binary (see the part reports); (i) every end-of-tunnel fault scenario of C11 under the default schedule, judged for panics; (h) a client that stopped reading while its host keeps writing (gateway writes block), then a bad header / out-of-order packet / channel close / nothing: another client is still served and nothing is left behind; (g) a tour of the real binary under 6 authentication configurations: login, download, token introspection, every registered route, and a complete session over each transport with the callbacks as main() wires them. Oracle for (a): no panic in any thread, a second client still completes a handshake afterwards, and after all clients left no gateway goroutine remains. distinct_nontrivial = distinct (input, phase, transport) cases.", len(ins))
+		"(c) NTLM messages against the real verifier; (d) KDC-proxy bodies against the real handler; (e) every sequence of up to 3 requests from {RDG_IN_DATA, RDG_OUT_DATA, websocket upgrade, GET, unknown method} x connection ids {X, Y, none} against the real handler; (b) HTTP-level inputs against the real rdpgw binary (see the part reports); (i) every end-of-tunnel fault scenario of C11 under the default schedule, each also against a gateway configured with an idle timeout, plus clients that keep the connection and fall silent after each stage (virtual time: every timer the gateway arms fires, its function in a thread of its own), judged for panics; (h) a client that stopped reading while its host keeps writing (gateway writes block), then a bad header / out-of-order packet / channel close / nothing: another client is still served and nothing is left behind; (g) a tour of the real binary under 6 authentication configurations: login, download, token introspection, every registered route, and a complete session over each transport with the callbacks as main() wires them. Oracle for (a): no panic in any thread, a second client still completes a handshake afterwards, and after all clients left no gateway goroutine remains. distinct_nontrivial = distinct (input, phase, transport) cases.", len(ins))
 	rep.Assumptions = append(rep.Assumptions, "each hostile input is one transport read (segmentations are C08's); table cookie checker")
 	if env.Replay != nil {
 		rp := env.Replay
@@ -360,7 +360,31 @@ func c10(env *Env, rep *Report) {
 		// (i) fault points: every end-of-tunnel scenario of C11 (client gone at each stage, one of the two legacy
 		// connections lost and the client continuing on the other, mid-packet drops, stalled clients) under the
 		// default schedule, judged for panics only (release of resources is C11's)
-		for i, sc := range c11Scenarios() {
+		scs := c11Scenarios()
+		// ... and clients that keep their connection but say nothing more after each stage, against a gateway
+		// configured with an idle timeout: whatever timers the gateway arms fire (virtual time), each in a
+		// thread of its own as the runtime would run it
+		for _, kind := range []string{"ws", "legacy"} {
+			for _, stage := range []string{"open", "hs", "tc", "ta", ""} {
+				for _, script := range [][]string{{"idle"}, {"ka", "idle"}, {"idle", "ka", "idle"}} {
+					nm := stage
+					if nm == "" {
+						nm = "cc"
+					}
+					scs = append(scs, ConcScenario{Name: fmt.Sprintf("%s/silent-after-%s/%s/idle-timeout-configured", kind, nm, strings.Join(script, "+")), IdleTimeout: 1,
+						Plans: []TunnelPlan{{Kind: kind, ConnID: "A", User: "ua", IP: "10.0.0.1", Host: "ha.example:3389", StopAt: stage, Script: script, Chunks: [][]byte{[]byte("host-bytes")}}}})
+				}
+			}
+		}
+		for _, sc0 := range scs {
+			if sc0.IdleTimeout == 0 && !strings.HasPrefix(sc0.Name, "many/") {
+				with := sc0
+				with.Name += "/idle-timeout-configured"
+				with.IdleTimeout = 1
+				scs = append(scs, with)
+			}
+		}
+		for i, sc := range scs {
 			n++
 			if !env.mine(n) {
 				continue
